@@ -110,8 +110,10 @@ def kv (ps : List String) (k : String) : String :=
 def pairCase (ps : List String) : String :=
   let shape := kv ps "shape"
   let reqs := ((kv ps "reqs").splitOn ",").map (fun t => t.toNat?.getD 0)
-  let sv := (kv ps "startval").toNat?.getD 0
-  let hasStart := decide (0 < sv)
+  let svs := kv ps "startval"
+  let startNil := svs == "nil"
+  let sv := svs.toNat?.getD 0
+  let hasStart := startNil || decide (0 < sv)
   let gen := shapeGen shape hasStart
   let n := reqs.length
   let total := reqs.foldl (· + ·) 0
@@ -120,11 +122,16 @@ def pairCase (ps : List String) : String :=
   let okCallers := (List.range n).all (fun i =>
     xsOf i s.served == script i && s.got i == ysOf i s.served && (s.got i).length == (script i).length)
   let first := match s.served with
-    | (none, v, _) :: _ => v
-    | _ => 0
+    | (none, v, _) :: _ => some v
+    | _ => none
+  -- StartWithVal(zero value of T): nil for interface{} / pointer element types, 0 for int
+  let showFirst : String := match first with
+    | some v => if startNil && kv ps "ty" != "int" && kv ps "ty" != "" then "nil" else toString v
+    | none => "none"
   if !okCallers then "viol model-run"
-  else if hasStart && first != sv then "viol startval"
-  else s!"ok total={total} first={if hasStart then first else 0}"
+  else if hasStart && first != some sv then "viol startval"
+  else if !hasStart && first.isSome then "viol startval"
+  else s!"ok total={total} first={showFirst}"
 
 /-- DoNotation / YieldFromIO: `result` is written by the effect goroutine before `wg.Done()`, and read after
     `wg.Wait()` returned -/
